@@ -263,8 +263,7 @@ def execute(sc, only_first=True):
                 if only_first:
                     break
                 continue
-            dres = digest(res)
-            digs.append(dres)
+            digs.append(digest(res))
             # ---- 1. argument snapshot
             for a, v, before in watch:
                 if _state_digest(v, a.ignore) != before:
@@ -274,19 +273,37 @@ def execute(sc, only_first=True):
                                   f"({which}{'' if a.kind != 'selfpure' else ' (self of a '
                                   'query method)'})", f"argument-modified/{call.name}"))
                     break
-            # ---- 2. repeat on deep copies
+            # ---- 2. repeat: two calls on two deep copies of the pre-call inputs must be
+            #         BIT-identical.  (Bit equality is only demanded between executions whose
+            #         inputs have the same memory layout: numpy reductions sum in an order
+            #         that depends on strides, so the live call - whose arguments may be views
+            #         into library-owned tables - is compared with them to rounding only.)
+            dres = None
             try:
                 a2, k2_ = _materialise_args(call, *copy.deepcopy(pre), forms)
-                res2 = call.fn(*a2, **k2_)
-                if digest(res2) != dres:
+                res_a = call.fn(*a2, **k2_)
+                dres = digest(res_a)
+                a3_, k3_ = _materialise_args(call, *copy.deepcopy(pre), forms)
+                res_b = call.fn(*a3_, **k3_)
+                if digest(res_b) != dres:
                     viol.append(V('not-repeatable',
                                   f"call #{k} {desc}: a second call with equal inputs "
                                   f"(equal integer seeds) gives a different result",
                                   f"not-repeatable/{call.name}"))
+                else:
+                    ok, why = _close(res, res_a)
+                    if not ok:
+                        viol.append(V('not-repeatable',
+                                      f"call #{k} {desc}: the call on copies of its inputs "
+                                      f"differs from the call on the inputs themselves: "
+                                      f"{why}", f"not-repeatable/{call.name}"))
+                res = res if dres is None else res
             except Exception as e:
                 viol.append(V('not-repeatable', f"call #{k} {desc}: repeating the call "
                                                 f"raised {_exc(e)}",
                               f"not-repeatable/{call.name}"))
+            if dres is None:
+                dres = digest(res)
             # ---- 4. form equivalence
             if forms:
                 stats['formed_calls'] += 1
